@@ -1404,11 +1404,13 @@ class TimeSeries(TimeSeriesBase):
                 #sampling_rate, or it is inconsistent, throw an error:
                 data_len = np.array(data).shape[-1]
 
-                # the rate (in Hz, whatever the unit of `time`) at which the
-                # data would fill the duration of `time`:
-                fill_rate = (float(data_len * time_unit_conversion['s']) /
-                             float(time.duration))
-                if length != data_len and sampling_rate != fill_rate:
+                # (compared with the rate, in Hz whatever the unit of `time`,
+                # at which the data would fill the duration of `time`; only
+                # formed when the lengths differ: an empty axis has duration 0)
+                if (length != data_len and
+                    sampling_rate != (float(data_len *
+                                            time_unit_conversion['s']) /
+                                      float(time.duration))):
                     e_s = "Length of the data (%s) " % str(len(data))
                     e_s += "specified sampling_rate (%s) " % str(sampling_rate)
                     e_s += "do not match."
